@@ -37,7 +37,7 @@ def run(ctx):
                         "RotoV.Lemmas.RegistrationOps", "RotoV.Lemmas.RegistrationClosed",
                         "RotoV.Lemmas.RegistrationOrder", "RotoV.Lemmas.RegistrationExact",
                         "RotoV.Lemmas.RegistrationDefects", "RotoV.Lemmas.RegistrationReach",
-                        "RotoV.Lemmas.RegistrationAccepts", "RotoV.Model.Registration",
+                        "RotoV.Lemmas.RegistrationAccepts", "RotoV.Lemmas.RegistrationOrigin", "RotoV.Model.Registration",
                         "RotoV.Model.RegistrationSrc"])
     ok2 = prove(PROPS_USE, ["RotoV.Lemmas.UseTree", "RotoV.Model.UseTree"])
     # the theorems that mention the regenerated pass structure (pass order, per-arm scope, declare_import walk)
